@@ -49,6 +49,10 @@ module Nat :
   val eqb : nat -> nat -> bool
 
   val leb : nat -> nat -> bool
+
+  val divmod : nat -> nat -> nat -> nat -> nat * nat
+
+  val div : nat -> nat -> nat
  end
 
 module Pos :
@@ -91,6 +95,8 @@ module Coq_Pos :
   val iter : ('a1 -> 'a1) -> 'a1 -> positive -> 'a1
 
   val size_nat : positive -> nat
+
+  val size : positive -> positive
 
   val compare_cont : comparison -> positive -> positive -> comparison
 
@@ -186,8 +192,14 @@ module Z :
 
   val quot : z -> z -> z
 
+  val even : z -> bool
+
+  val log2 : z -> z
+
   val ggcd : z -> z -> z * (z * z)
  end
+
+val hd : 'a1 -> 'a1 list -> 'a1
 
 val tl : 'a1 list -> 'a1 list
 
@@ -269,7 +281,7 @@ val tmax : ity -> z
 
 val wrap : ity -> z -> z
 
-val size : z list -> z
+val size0 : z list -> z
 
 val ravel : z list -> z list -> z
 
@@ -752,6 +764,8 @@ val euler_lookup8_x4 : z list
 
 val euler_powers : z list list
 
+val daubechies_tables : q list list
+
 val fgb : arr -> z list -> bool
 
 val tmatch : arr -> ((z * z) * bool) list -> z list -> bool
@@ -791,6 +805,32 @@ val graham : pt list -> pt list
 val fg_points : arr -> pt list
 
 val convexhull : arr -> pt list
+
+val pairs : z list -> (z * z) list
+
+val haar_row : z list -> z list
+
+val ihaar_row : z list -> z list
+
+val transpose : nat -> z list list -> z list list
+
+val haar2d : nat -> nat -> z list list -> z list list
+
+val ihaar2d : nat -> nat -> z list list -> z list list
+
+val qacc : q list -> z -> q
+
+val qsum : q list -> q
+
+val wavelet_row : q list -> q list -> q list
+
+val iwavelet_row : q list -> q list -> q list
+
+val axis_geom : z -> z -> z * z
+
+val center_search : nat -> z list -> z -> z -> (z * z) list option
+
+val center_geom : z list -> z -> (z * z) list option
 
 val gbernsen_px : q -> q -> q -> q -> q -> bool
 
